@@ -32,6 +32,7 @@ type VerifCall struct {
 	Flag     bool // ShouldDecrementDesiredCapacity / fleet type instant / update adds taint
 	OK       bool // call accepted
 	Aux      string
+	At       int64 // clock reading (Unix ns) when the cloud accepted the call; only with VerifJournal.Stamp
 }
 
 type VerifJournal struct {
@@ -40,6 +41,7 @@ type VerifJournal struct {
 	FailBudget int
 	Failed     int
 	Seq        int
+	Stamp      bool // read the clock when a resize / attach is accepted
 }
 
 // Fail decides whether the next fake call fails (one symbolic Bool per call,
@@ -152,6 +154,9 @@ func (s *VerifAutoScaling) SetDesiredCapacity(in *autoscaling.SetDesiredCapacity
 	}
 	g.Desired = n
 	c.OK = true
+	if s.J.Stamp {
+		c.At = verifClockNanos()
+	}
 	s.J.Calls = append(s.J.Calls, c)
 	return &autoscaling.SetDesiredCapacityOutput{}, nil
 }
@@ -223,6 +228,9 @@ func (s *VerifAutoScaling) AttachInstances(in *autoscaling.AttachInstancesInput)
 	}
 	g.Desired += int64(len(c.IDs))
 	c.OK = true
+	if s.J.Stamp {
+		c.At = verifClockNanos()
+	}
 	s.J.Calls = append(s.J.Calls, c)
 	return &autoscaling.AttachInstancesOutput{}, nil
 }
